@@ -41,6 +41,9 @@ def main():
             m = re.search(r'^package\s+(\w+)', txt, re.M)
             pkg = m.group(1) if m else 'app'
             pkgdir = {'app': 'src/app', 'loader': 'src/loader', 'types': 'src/types', 'pclog': 'src/pclog', 'health': 'src/health', 'api': 'src/api', 'client': 'src/client', 'cmd': 'src/cmd', 'command': 'src/command', 'templater': 'src/templater'}.get(pkg.replace('_test', ''), 'src/app')
+            md = re.match(r'//\s*dir:\s*(\S+)', txt)
+            if md and os.path.isdir(os.path.join(repo, md.group(1))):
+                pkgdir = md.group(1).rstrip('/')
             dst = os.path.join(repo, pkgdir, os.path.basename(f))
             shutil.copy(f, dst)
             placed.append((pkgdir, os.path.basename(f), txt))
